@@ -55,6 +55,7 @@ package bip39
 //@   ghost ws SSeq = fromEntropy_ws
 //@   ensures [C01,C02,C05] enc: implies(validLen(len(entropy)), result == join(ws, sepOf(lang)) && slen(ws) == 3*len(entropy)/4)
 //@   ensures [C01,C02,C05] words: implies(validLen(len(entropy)) && supported(lang), forall(j, 0, slen(ws), sat(ws, j) == lst(lang, digit(V(old(bytes(entropy))), slen(ws)-1-j))))
+//@   ensures [C13] wordsAny: implies(validLen(len(entropy)), forall(j, 0, slen(ws), sat(ws, j) == lst(effLang(lang), digit(V(old(bytes(entropy))), slen(ws)-1-j))))
 //@   ensures [C13] pure: unchanged(entropy)
 
 //@ func fromEntropy
@@ -64,6 +65,7 @@ package bip39
 //@   ensures [C01,C02,C05] enc: result == join(ws, sepOf(lg)) && slen(ws) == wordLen
 //@   ensures [C01,C02,C05] words: implies(supported(lg), forall(j, 0, wordLen, sat(ws, j) == lst(lg, digit(V(old(bytes(entropy))), wordLen-1-j))))
 //@   ensures [C09] nonempty: forall(j, 0, wordLen, sat(ws, j) != "")
+//@   ensures [C13] wordsAny: forall(j, 0, wordLen, sat(ws, j) == lst(effLang(lg), digit(V(old(bytes(entropy))), wordLen-1-j)))
 //@   loop 1 assigns BigVal[entInt], BigVal[wordIdx], SMem[wordList]
 //@   loop 1 invariant bounds: -1 <= i && i < wordLen && val(entInt) >= 0 && len(wordList) == wordLen && off(wordList) == 0
 //@   loop 1 invariant list: ref(lgList) == wlref(effLang(lg)) && off(lgList) == 0 && len(lgList) == 2048
@@ -222,3 +224,89 @@ package bip39
 //@ func MnemonicToSeed
 //@   ensures [C04] fresh: fresh(result) && len(result) == 64 && off(result) == 0
 //@   ensures [C04,C11] value: bytes(result) == pbkdf2(bytesOf(nfkd(mnemonic)), bcat(bytesOf("mnemonic"), bytesOf(nfkd(passphrase))), 2048, 64, 512)
+
+// ---------------------------------------------------------------------------
+// relational properties as ghost clients (verif_lemmas.go)
+
+//@ func verifRoundTrip
+//@   requires validLen(len(e)) && supported(lg)
+//@   assigns mappings
+//@   let n = 3*len(e)/4
+//@   ensures [C02] nopanic: true
+//@   split len(e) in {16,20,24,28,32} at after call NewMnemonicByEntropy#1 unfold acc(NewMnemonicByEntropy_ws, lg, 3*len(e)/4, 3*len(e)/4); shr11(V(bytes(e)), 3*len(e)/4)
+//@   assert at after call NewMnemonicByEntropy#1: tokens: split(nfkd(NewMnemonicByEntropy_result), " ") == NewMnemonicByEntropy_ws
+//@   assert at after call NewMnemonicByEntropy#1: known: forall(j, 0, n, widx(lg, sat(NewMnemonicByEntropy_ws, j)) == digit(V(bytes(e)), n-1-j))
+//@   assert at after call NewMnemonicByEntropy#1: value: acc(NewMnemonicByEntropy_ws, lg, n, n) == V(bytes(e))
+
+//@ func verifRoundTripValid
+//@   requires validLen(len(e)) && supported(lg)
+//@   assigns mappings
+//@   let n = 3*len(e)/4
+//@   ensures [C02] nopanic: true
+//@   split len(e) in {16,20,24,28,32} at after call NewMnemonicByEntropy#1 unfold acc(NewMnemonicByEntropy_ws, lg, 3*len(e)/4, 3*len(e)/4); shr11(V(bytes(e)), 3*len(e)/4)
+//@   assert at after call NewMnemonicByEntropy#1: tokens: split(nfkd(NewMnemonicByEntropy_result), " ") == NewMnemonicByEntropy_ws
+//@   assert at after call NewMnemonicByEntropy#1: known: forall(j, 0, n, widx(lg, sat(NewMnemonicByEntropy_ws, j)) == digit(V(bytes(e)), n-1-j))
+//@   assert at after call NewMnemonicByEntropy#1: value: acc(NewMnemonicByEntropy_ws, lg, n, n) == V(bytes(e))
+
+//@ func verifRoundTripRand
+//@   requires validCount(n) && supported(lg) && pos(cryptoRander) + 4*n/3 <= ravail(cryptoRander)
+//@   let src = rseg(cryptoRander, old(pos(cryptoRander)), 4*n/3)
+//@   assigns RPos[cryptoRander], mappings
+//@   ensures [C02] nopanic: true
+//@   split n in {12,15,18,21,24} at after call NewMnemonic#1 unfold acc(NewMnemonic_ws, lg, n, n); shr11(V(src), n)
+//@   assert at after call NewMnemonic#1: tokens: split(nfkd(NewMnemonic_result), " ") == NewMnemonic_ws
+//@   assert at after call NewMnemonic#1: known: forall(j, 0, n, widx(lg, sat(NewMnemonic_ws, j)) == digit(V(src), n-1-j))
+//@   assert at after call NewMnemonic#1: value: acc(NewMnemonic_ws, lg, n, n) == V(src)
+
+//@ func verifLossless
+//@   requires validLen(len(e)) && supported(lg)
+//@   assigns mappings
+//@   let n = 3*len(e)/4
+//@   split len(e) in {16,20,24,28,32} at after call NewMnemonicByEntropy#1 unfold acc(NewMnemonicByEntropy_ws, lg, 3*len(e)/4, 3*len(e)/4); shr11(V(bytes(e)), 3*len(e)/4)
+//@   assert at after call NewMnemonicByEntropy#1: tokens: split(NewMnemonicByEntropy_result, sepOf(lg)) == NewMnemonicByEntropy_ws
+//@   assert at after call NewMnemonicByEntropy#1: known: forall(j, 0, n, widx(lg, sat(NewMnemonicByEntropy_ws, j)) == digit(V(bytes(e)), n-1-j))
+//@   assert at after call NewMnemonicByEntropy#1: value: acc(NewMnemonicByEntropy_ws, lg, n, n) == V(bytes(e))
+//@   ensures [C05] tokens: slen(split(result, sepOf(lg))) == n && forall(j, 0, n, widx(lg, sat(split(result, sepOf(lg)), j)) >= 0)
+//@   ensures [C05] decode: mk(acc(split(result, sepOf(lg)), lg, n, n)/pow2(n/3), 4*(n/3)) == old(bytes(e))
+
+//@ func verifSameVerdict
+//@   requires nfkd(a) == nfkd(b)
+//@   assigns mappings
+//@   ensures [C10] nopanic: true
+
+//@ func verifSameSeed
+//@   requires nfkd(m1) == nfkd(m2) && nfkd(p1) == nfkd(p2)
+//@   ensures [C11] nopanic: true
+
+//@ func verifBoolean
+//@   assigns mappings
+//@   ensures [C03] nopanic: true
+
+//@ func verifAnyCall
+//@   assigns mappings, RPos[cryptoRander]
+//@   ensures [C13] frame: true
+
+//@ func verifHistoryCheck
+//@   assigns mappings, RPos[cryptoRander]
+//@   ensures [C13] nopanic: true
+
+//@ func verifHistoryEncode
+//@   assigns mappings, RPos[cryptoRander]
+//@   assert at after call NewMnemonicByEntropy#2: sameseq: implies(validLen(len(x)), sameSeq(NewMnemonicByEntropy_ws_1, NewMnemonicByEntropy_ws_2))
+//@   ensures [C13] nopanic: true
+//@   ensures [C13] nomutation: unchanged(x)
+
+//@ func verifHistorySeed
+//@   assigns mappings, RPos[cryptoRander]
+//@   ensures [C13] nopanic: true
+
+//@ func verifHistoryName
+//@   strings native
+//@   assigns mappings, RPos[cryptoRander]
+//@   ensures [C13] nopanic: true
+
+//@ lemma countLemma(H Int, e Int, c Int, cs Int)
+//@   requires 4 <= cs && cs <= 8 && 0 <= H && 0 <= e && e < pow2(11-cs) && 0 <= c && c < pow2(cs)
+//@   split cs in {4,5,6,7,8} at entry
+//@   ensures [C03] quot: (2048*H + e*pow2(cs) + c) / pow2(cs) == H*pow2(11-cs) + e
+//@   ensures [C03] rem: (2048*H + e*pow2(cs) + c) % pow2(cs) == c
